@@ -1040,8 +1040,9 @@ impl Tuple {
             bitmap_size,
         )?;
 
-        // Copy existing deltas
+        // Copy existing deltas (readers look for the next delta header at an aligned offset)
         if existing_deltas_size > 0 {
+            let cursor = DeltaHeader::aligned_offset(cursor);
             let existing_deltas = &self.data.effective_data()[existing_deltas_start..];
             buffer[cursor..cursor + existing_deltas_size].copy_from_slice(existing_deltas);
         }
@@ -1159,7 +1160,10 @@ impl Tuple {
             }
         }
 
-        // Existing deltas
+        // Existing deltas (start at an aligned offset, like every delta)
+        if existing_deltas_size > 0 {
+            size = DeltaHeader::aligned_offset(size);
+        }
         size += existing_deltas_size;
 
         size
